@@ -431,12 +431,24 @@ func (r *Reliable) receive(pkt *frame) error {
 // +checklocks:r.l
 func (r *Reliable) enterLastAckState() {
 	r.tubeState = lastAck
-	r.lastAckTimer = time.AfterFunc(4*r.sender.RTT, func() {
-		r.l.Lock()
-		defer r.l.Unlock()
-		r.log.Warn("timer expired without getting ACK of FIN. going from lastAck to closed")
-		r.enterClosedState()
-	})
+	r.lastAckTimer = time.AfterFunc(4*r.sender.RTT, r.lastAckTimeout)
+}
+
+// lastAckTimeout gives up waiting for the ACK of our FIN. Data written before
+// Close must still reach the peer, so while frames other than the FIN are
+// unacknowledged the tube stays in lastAck (retransmitting) and the timer is re-armed.
+func (r *Reliable) lastAckTimeout() {
+	r.l.Lock()
+	defer r.l.Unlock()
+	if r.tubeState != lastAck {
+		return
+	}
+	if r.sender.unAckedFramesRemaining() > 1 {
+		r.lastAckTimer = time.AfterFunc(4*r.sender.RTT, r.lastAckTimeout)
+		return
+	}
+	r.log.Warn("timer expired without getting ACK of FIN. going from lastAck to closed")
+	r.enterClosedState()
 }
 
 // +checklocks:r.l
